@@ -171,9 +171,14 @@ func (fs *Filespace) Writer(destPath string) (writer filesystem.Writer, err erro
 	defer dir.Unlock()
 	if node, err = dir.getNode(destNodeName); err != nil {
 		file = NewFile(destNodeName, filesystem.DefaultUnixFileMode, time.Now(), []byte{})
+		// take the data lock before the file becomes visible: a concurrent reader must
+		// wait for Close instead of reading the still empty file
+		newHandler := NewFileHandler(file)
 		if err = dir.addNode(file); err != nil {
+			newHandler.Close()
 			return nil, err
 		}
+		return newHandler, nil
 	} else {
 		if file, ok = node.(*File); !ok {
 			return nil, goaterr.Errorf("Node %s must be a file", destPath)
